@@ -536,18 +536,8 @@ def _letters_check(facts, rep):
     from ..mirq import operand_place
     letters = ["w", "a", "s", "A", "e", "Q"]
     NOCC = 3
-    # --- the construction site: a call outside DisplayFlags' own impl whose result is a DisplayFlags
-    sites = []
-    for b in facts.bodies.values():
-        if b.kind == "promoted" or "::tests::" in b.name or "DisplayFlags" in b.name:
-            continue
-        for bi, t in b.calls():
-            d = t["dest"]
-            if not d["proj"] and b.locals[d["local"]]["ty"]["s"].endswith("DisplayFlags") and callee_name(t) in facts.bodies:
-                sites.append((b, bi, t))
-    if len(sites) != 1:
-        raise Broken("C14 anchor: %d construction sites of DisplayFlags outside its impl" % len(sites))
-    b, bi, t = sites[0]
+    from ..optexpr import eval_option_arg, find_flags_site
+    b, bi, t = find_flags_site(facts)
     du = DefUse(b)
     atoms = tt_setup(["%s#%d" % (l, k + 1) for k in range(NOCC) for l in letters])
     occ = []
@@ -555,21 +545,10 @@ def _letters_check(facts, rep):
         occ.append(charset({l: atoms[k * len(letters) + i] for i, l in enumerate(letters)}))
 
     def ev(I, st, e):
-        """evaluate the argument's expression tree on the abstract -i list"""
-        if e[0] == "arg" and e[2] and e[2][-1] == "display_info":
-            return ref_to(I, st, VecV(occ))
-        if e[0] == "const" and isinstance(e[1], str):
-            return StrV("lit", text=e[1])
-        if e[0] == "call":
-            nm = e[1].split("::")[-1]
-            args = [ev(I, st, a) for a in e[2]]
-            if nm in ("deref", "as_ref", "as_slice", "borrow", "as_str", "as_mut", "to_owned", "clone", "to_string", "to_vec") and args:
-                return args[0]
-            if nm in ("concat", "join"):
-                from ..absint.models2 import m_concat_cs
-                st2, v = m_concat_cs(I, st, {"name": nm}, args, None, {})
-                return ref_to(I, st, v)
-        raise Broken("C14 R14.7: the -i option reaches the display flags through %s" % show(e)[:160])
+        try:
+            return eval_option_arg(I, st, e, VecV(occ))
+        except Broken as ex:
+            raise Broken("C14 R14.7: %s" % ex)
 
     res = {}
 
